@@ -69,3 +69,22 @@ func VerifIsPkgCache(c interface{}) bool {
 	s, ok := c.(*simpleCache)
 	return ok && s == resCache && s != nil
 }
+
+// VerifNewCache returns an empty cache of the package's own implementation, so that a harness
+// can share one among goroutines.
+func VerifNewCache() ResolutionCache {
+	return &simpleCache{store: map[string]interface{}{}}
+}
+
+// VerifCloneCache runs ShallowClone on a cache of the package's own implementation.
+func VerifCloneCache(c ResolutionCache) ResolutionCache {
+	if s, ok := c.(*simpleCache); ok {
+		return s.ShallowClone()
+	}
+	return nil
+}
+
+// VerifCacheOrDefault exposes cacheOrDefault (lazy initialisation + clone of the package cache).
+func VerifCacheOrDefault(c ResolutionCache) ResolutionCache {
+	return cacheOrDefault(c)
+}
